@@ -357,13 +357,17 @@ func (f *File) startSegmentIfNeeded(b Box, boxStartPos uint64) {
 			}
 		}
 	case f.tfra != nil:
-		if boxStartPos == uint64(f.tfra.Entries[segIdx].MoofOffset) {
+		if segIdx < len(f.tfra.Entries) && boxStartPos == uint64(f.tfra.Entries[segIdx].MoofOffset) {
 			segStart = true
 		}
 	case (f.fileDecFlags & DecStartOnMoof) != 0:
 		segStart = true
 	default:
 		segStart = (segIdx == 0)
+	}
+	if segIdx == 0 {
+		// The first fragment must belong to a segment, also if it does not start where the index says
+		segStart = true
 	}
 	if segStart {
 		f.isFragmented = true
@@ -408,6 +412,11 @@ func (f *File) findAndReadMfra(r io.Reader) error {
 	mfra, ok := b.(*MfraBox)
 	if !ok {
 		return fmt.Errorf("expecting mfra box, but got %T", b)
+	}
+	if len(mfra.Tfras) == 0 {
+		// No tfra box to get segment starts from
+		_, err = rs.Seek(0, io.SeekStart)
+		return err
 	}
 	f.tfra = mfra.Tfras[0]
 	for i := 1; i < len(mfra.Tfras); i++ {
